@@ -508,8 +508,8 @@ func (x *Exec) instr(st *State, fr *Frame, in ssa.Instruction) {
 			if b.Cell != nil {
 				bv = st.Cells[b.Cell]
 			}
-			if bv != nil && bv.Term != nil && bv.Fields == nil && bv.Term.Sort == SInt {
-				st.Assume(Eq(UF(fmt.Sprintf("closurevar$%d", bi), SInt, r), bv.Term))
+			if bv != nil && bv.Term != nil && bv.Fields == nil && (bv.Term.Sort == SInt || bv.Term.Sort == SStr || bv.Term.Sort == SBool) {
+				st.Assume(Eq(UF(closureVarFn(bi, bv.Term.Sort), bv.Term.Sort, r), bv.Term))
 			}
 		}
 		fr.Regs[i] = &Val{T: i.Type(), Clo: clo, Term: r}
